@@ -15,7 +15,7 @@ CHECKS = {
          "4/C02"),
  "C03": ("bounded-exhaustive reification programs, structural oracle on every answer (E3)",
          "Query variables bound to 13 term shapes (lists, improper/nested lists, repeated variables, five compound kinds, nested and recursive compounds) x a second query variable sharing variables x 12 constraint sets (incl. hidden-variable and multi-binding disequalities) x statement orders: every answer variable is a reified `_`, the tuple equals the reference substitution up to renaming, reported constraints mention only the answer's variables, and LResult::constraints() returns every reported constraint with an operand occurring anywhere in the result term.",
-         "constraints(): a constraint is required when one of its operands (left-hand side, or a right-hand side that is itself a variable) occurs in the term; constraints merely mentioning a variable deeper in a right-hand side are allowed but not required.",
+         "constraints(): a constraint is required when one of its operands (left-hand side, or a right-hand side that is itself a variable) occurs in the term; constraints merely mentioning a variable deeper in a right-hand side are allowed but not required. is_any_except between result variables is compared with the reported constraints.",
          "4/C03"),
  "C04": ("bounded-exhaustive programs executed in every permutation of every conjunction/disjunction x schedules (E3 x E2)",
          "Pure programs (literals, conde 2-3 arms, nested conde, Disj chains, fresh with hidden variables), FD programs (T1/T2) and mixed conde+FD programs are executed in every permutation of every conjunction, conde arm list and arm body (<= 4 children; simultaneous permutations capped); answer multisets (instance sets over a finite universe / FD tuples) agree across permutations and with the order-free reference or brute force; FD variants also under hash-order schedules.",
@@ -39,7 +39,7 @@ CHECKS = {
          "4/C08"),
  "C09": ("E2 schedule exploration for determinism + bounded-liveness runs through the public iterator (E2 + E4)",
          "(a)(b) every disjunction of 1-3 branches from finite goals, loop{} producers, loop{false} divergers, nested conde, producers behind closures, dfs{} blocks whose first goal diverges silently / rejects every candidate of an infinite producer / produces for ever, at top level / under fresh / after an always-like prefix / as binary Disj, through Query::run: take(n) delivers n answers within the step budget whenever n exist; finite programs end with exactly their answers and stay ended. (c) FD programs with >= 2 constraints, hidden-FD-variable programs and multi-binding disequality programs run twice unscheduled and under every schedule of all 8 hooked hash-iteration sites with <= d deviations plus all-reversed: identical canonical answer sequences.",
-         "A second OS process is not steered; iteration orders are enumerated at the hooked sites instead (superset up to the deviation bound). d=1 quick / 2 thorough.",
+         "A second OS process is not steered; iteration orders are enumerated at the hooked sites instead (superset up to the deviation bound). d=1 quick / 2 thorough. Determinism families include hidden FD variables that a tree disequality connects to the answer.",
          "4/C09"),
  "C10": ("bounded-exhaustive metamorphic comparison of combined vs separate branch runs x schedules (E3 x E2)",
          "For 7 prefixes and every ordered pair (plus a stride of flat/nested triples) of 24 branch goals, alone and followed by one of 4 shared continuations entered by the states of both branches, (bindings, disequalities, domain narrowing, FD propagators incl. distinctfd's shared constraint object, CLP(Z), user-state updates, nested conde, project, fail) the multiset of final states of `prefix, conde{A,B}` — reified terms, reported disequalities, per-branch user trail and open-constraint counter of an instrumented User — equals the union of the branches run alone.",
@@ -79,7 +79,7 @@ CHECKS = {
          "4/C18"),
  "C19": ("bounded-exhaustive CLP(Z) programs over all operand/groundness patterns and statement orders vs integer arithmetic (E3)",
          "plusz/timesz x every operand pattern over three variables and {-3,-2,0,1,2,6} (thorough: 8 values; all aliasings) x every groundness pattern x every statement order, chains of two constraints, and constraints one of whose operands is unified with a partner variable by a separate == (both orientations, bound directly or through the partner): answers equal the integer-arithmetic closure (ground equations hold; two ground operands determine the third, fail, or leave it constrained when every integer works); no panic.",
-         "Values in {-3,-2,0,1,2,6} (thorough adds -4,-1); aliased operands with fewer than two ground positions are judged for soundness only.",
+         "Values in {-3,-2,0,1,2,6} (thorough adds -4,-1) plus single constraints with operands at the ends of the isize range whose exact result still fits; aliased operands with fewer than two ground positions are judged for soundness only.",
          "4/C19"),
  "C20": ("explicit-state BFS on compound terms and on their tagged-list twins + twin execution of reification/FD programs (E1 + E3)",
          "(a) the C01 exploration over a universe with named, tuple-like, nested, recursive #[compound] structs, Rust tuples, Option (top-level and as a field of a compound struct: Some / None as two structures of one type), run on the compound terms and on the isomorphic tagged-list encoding, each transition against the reference unifier; (b) the C03 programs and the FD labeling programs with compound-shaped answers executed as written and with every constructor encoded as a tagged list: decoded answers (terms and reported constraints) coincide.",
@@ -91,7 +91,7 @@ CHECKS = {
          "4/C21"),
  "C22": ("bounded-exhaustive statement sequences with an instrumented User type and per-statement probes x schedules (E3 x E2)",
          "All ordered sequences of 2-3 statements of a 14-statement == / != alphabet (incl. subsuming, chained and multi-binding disequalities), all 4-statement sequences of the first ten (thorough: of the whole alphabet, and all 5-statement sequences of the first eight), sequences with a two-arm conde, and FD programs run with a User type counting with_constraint/take_constraint and logging process_extension; probes before/after every statement and every answer state: with - take == stored constraints; each successful == triggers process_extension once with exactly unify_rec's new bindings; the statements seen by an answer's user state form one program path (per-branch cloning).",
-         "Statement alphabet of 14 tree + 7 FD statements; d=1 quick / 2 thorough on the store iteration sites.",
+         "Statement alphabet of 14 tree + 7 FD statements; d=1 quick / 2 thorough on the store iteration sites. Plus 14 hand-written programs over two user terms with the unify hook at its default (a user term unifies with variables only).",
          "4/C22"),
  "C23": ("panic monitor re-running every family of the framework under catch_unwind (all explorers)",
          "Every generator of the framework (20 families: unification, disequality, reification, reordering, engine exploration, committed choice, iteration, isolation, project, for, FD tiers, CLP(Z), compound twins, LTerm API, user hooks, list relations, FiniteDomain) is re-run with its well-formedness filter; every panic other than the harness's step-budget signal is reported with its site; process aborts are attributed by the supervisor.",
